@@ -567,7 +567,7 @@ func writeEvidence(path, prop, tier string, seed int64, results []*jobResult, ps
 			"decisions": j.Decisions, "assert_checks": j.AssertChecks, "obligations": j.Obligations, "discharged_unsat_or_concrete": j.Discharged,
 			"queries": map[string]int64{"sat": j.Queries[Sat], "unsat": j.Queries[Unsat], "unknown": j.Queries[Unknown]},
 			"solver_time_s": j.SolverTime.Seconds(), "wall_s": r.Wall, "reach": j.Reach, "counterexamples": j.CexCount, "ssa_steps": j.Steps,
-			"known_findings_hit": j.KnownHits})
+			"known_findings_hit": j.KnownHits, "unknown_retried_in_fresh_solver": j.SolverRetries, "of_which_decided": j.SolverRescued})
 	}
 	type fc struct {
 		n string
